@@ -1,7 +1,7 @@
 """Run every translator (each writes its coq/Gen file, or a failure stub)."""
 import importlib
 
-MODULES = ["gen_dialect", "gen_sites", "gen_codegen", "gen_split", "gen_serde", "gen_entry", "gen_literal", "gen_keywords", "gen_ident_dialect", "gen_lex_tables", "gen_window", "gen_dialect_feat", "gen_c10_std", "gen_pratt", "gen_doc_prec", "gen_sql_strength", "gen_std_sql", "gen_expand", "gen_sites_state", "gen_c13_span", "gen_unpack"]
+MODULES = ["gen_dialect", "gen_sites", "gen_codegen", "gen_split", "gen_serde", "gen_entry", "gen_literal", "gen_keywords", "gen_ident_dialect", "gen_lex_tables", "gen_window", "gen_dialect_feat", "gen_c10_std", "gen_pratt", "gen_doc_prec", "gen_sql_strength", "gen_std_sql", "gen_expand", "gen_sites_state", "gen_c13_span", "gen_unpack", "gen_dialect_reads"]
 
 
 def generate_all():
